@@ -343,6 +343,12 @@ def groups(tier, seed):
         ('2k + -1k', '2k - 1k'), ('-1k + 2k', '2k - 1k'), ('2k - -1k', '2k + 1k'),
         ('-(size + 1)', '0 - (size + 1)'), ('2 * -(size)', '2 * (0 - size)'), ('-(size)', '0 - size'), ('-{size + 1}', '0 - (size + 1)'), ('+(size + 1)', 'size + 1'), ('10 - -(size)', '10 + size'),
         ('0 minus size', '0 - size'), ('minus 5 plus size', '-5 + size'), ('size mul minus 3', 'size * -3'), ('plus size', 'size'))]}
+    # two or more operators glued into one word before a bracket or a blank (the right operand of the last one stands behind it)
+    yield {'cases': [{'kind': 'compact-underscore', 'a': a, 'b': b} for a, b in (
+        ('3+2*(size+size)', '3 + 2 * (size + size)'), ('1+2*(3)', '1 + 2 * 3'), ('3-2*(size)', '3 - 2 * size'), ('size+2*(size)', 'size + 2 * size'), ('3+2* (size)', '3 + 2 * size'),
+        ('3+2/(size+1)', '3 + 2 / (size + 1)'), ('3*2*(size)', '3 * 2 * size'), ('3+2+(size)', '3 + 2 + size'), ('3+2* size', '3 + 2 * size'), ('1+2+3*(size)', '1 + 2 + 3 * size'),
+        ('2+3*{size}', '2 + 3 * size'), ('size-1-(2)', 'size - 1 - 2'), ('size*2-(size)', 'size * 2 - size'), ('size%3+2*(hardlinks)', 'size % 3 + 2 * hardlinks'),
+        ('10-4- 3', '10 - 4 - 3'), ('size+1+ 1', 'size + 1 + 1'), ('2*3*(4)*5', '2 * 3 * 4 * 5'), ('1+2*(3)+4*(5)', '1 + 2 * 3 + 4 * 5'))]}
     # compact expressions of every length from 6 to 90 characters (the word rules look ahead a fixed number of characters): as their spaced twins
     win = []
     for tail in ('uid', 'size', 'hardlinks', 'mp3_year'):
